@@ -114,6 +114,7 @@ class Unit:
         self.assumed = []           # scan results
         self.listed_fns = {}        # (file, impl selector) -> set of fn names extracted (coverage)
         self.literals = {}
+        self.hints_dropped = []
 
     # ---------------------------------------------------------------- template
     def load_tpl(self, path, seen=None):
@@ -253,8 +254,13 @@ class Unit:
                             if name == 'derive':
                                 # derived Default is kept (Verus accepts it and extracted code may call it); every other derive is dropped
                                 traits = [x.strip() for x in inner[len('derive('):-1].split(',')]
-                                if 'Default' in traits:
-                                    keep = '#[derive(Default)]\n'
+                                wanted = {'Default'}
+                                for o in opts:
+                                    if o.startswith('keepderive:'):
+                                        wanted |= set(x.strip() for x in o[len('keepderive:'):].split(','))
+                                kept = [x for x in traits if x in wanted]
+                                if kept:
+                                    keep = '#[derive(%s)]\n' % ', '.join(kept)
                             edits.append(Edit(t.start, drop_end, keep)); cnt('R1')
                     else:
                         raise GenError('unknown attribute #[%s] in %s :: %s' % (inner, rel, selector))
@@ -668,6 +674,8 @@ class Unit:
             if not mm:
                 continue
             n = int(mm.group(1))
+            if ('r5:%d' % n) in opts:
+                continue    # handled inside R5 (the iterator expression is rewritten there)
             if n >= len(loops) or loops[n]['kind'] != 'for' or loops[n]['in'] is None:
                 raise GenError('contract needs re-anchoring: R6 loop %d of %s is not a for loop' % (n, rec.selector))
             L = loops[n]
@@ -692,6 +700,18 @@ class Unit:
             L = loops[n]
             pat = src.text[toks[L['kw']].end:toks[L['in']].start].strip()
             expr = src.text[toks[L['in']].end:toks[L['body']].start].strip()
+            if ('r6i:%d' % n) in opts:
+                # the iterated expression is already a shared reference to a collection: `for x in r` == `for x in r.iter()`
+                expr = '(' + expr + ').iter()'
+                cnt('R6')
+            if ('r6:%d' % n) in opts:
+                if expr.startswith('&mut '):
+                    expr = expr[5:].strip() + '.iter_mut()'
+                elif expr.startswith('&'):
+                    expr = expr[1:].strip() + '.iter()'
+                else:
+                    raise GenError('contract needs re-anchoring: R6 loop %d of %s does not iterate over a reference' % (n, rec.selector))
+                cnt('R6')
             # prefix goes before the label if any
             kwi = L['kw']
             pv = self.prev_sig(toks, kwi, body)
@@ -778,7 +798,10 @@ class Unit:
                 if mm.group(2) is not None:
                     hits = hits[int(mm.group(2)):int(mm.group(2)) + 1]
                 if len(hits) != 1:
-                    raise GenError('contract needs re-anchoring: hint anchor `%s` matches %d times in %s' % (mm.group(1), len(hits), rec.selector))
+                    # a proof hint whose anchor statement is gone (or became ambiguous) is DROPPED, not fatal: the obligations stay,
+                    # the verifier decides without the hint (recorded for the evidence)
+                    self.hints_dropped.append('%s: hint anchor `%s`%s matches %d times' % (rec.selector, mm.group(1), ('#' + mm.group(2)) if mm.group(2) else '', len(hits)))
+                    continue
                 off = body_lo + (hits[0].end() if c[0] == 'after' else hits[0].start())
                 txt = mm.group(3)
                 edits.append(Edit(off, off, (' ' + txt + ' ') if c[0] == 'after' else (txt + ' '), ('spec', tplpath, c[2], c[3]), prio=3))
